@@ -52,7 +52,21 @@ func hasSym(v value) bool {
 	return false
 }
 
+// callNativeByName dispatches like callNative for a function known by name with signature lookup.
+func callNativeByName(fr *frame, name string, args []value) value {
+	for fn := range fr.i.prog.ImportedPackage(name[:strings.Index(name, ".")]).Members {
+		_ = fn
+	}
+	p := fr.i.prog.ImportedPackage(name[:strings.Index(name, ".")])
+	f := p.Func(name[strings.Index(name, ".")+1:])
+	return callNativeFn(fr, f, args)
+}
+
 func callNative(fr *frame, fn *ssa.Function, args []value) value {
+	return callNativeFn(fr, fn, args)
+}
+
+func callNativeFn(fr *frame, fn *ssa.Function, args []value) value {
 	name := fn.String()
 	x := fr.i.x
 	anySym := false
